@@ -208,6 +208,18 @@ def check_metamorphic(short, inum, t, data):
                 out.append(("C12:devicetype-argument-changes-24-bit-decode", "%s: with devicetype=%d decoded %r, with 0 %r"
                             % (where, dt, describe(w), describe(via_map))))
                 break
+        # the receiver of an event edits it (renumbers the source when merging two buses): later decodes are unaffected
+        ref_desc = describe(via_map)
+        try:
+            via_map.short_address.address = (short + 32) % 64
+            via_map.frame[0] = not via_map.frame[0]
+        except Exception:  # noqa - read-only would be fine too
+            pass
+        again = command.from_frame(frame.ForwardFrame(24, v_di), dev_inst_map=m)
+        if describe(again) != ref_desc or again.frame.as_integer != v_di:
+            out.append(("C12:decode-result-shared-with-caller", "%s: after the caller edited a decoded event, the same frame decodes "
+                        "as %r (frame %#x), expected %r" % (where, describe(again), again.frame.as_integer, ref_desc)))
+        via_map = again
         r = amb.retry_decode(m)
         if r is None or describe(r) != describe(via_map) or r.frame.as_integer != v_di:
             out.append(("C12:retry-differs", "%s: retry gave %r, direct decode %r" % (where, r and describe(r), describe(via_map))))
@@ -264,9 +276,45 @@ def check_map_construction(entries):
                     out.append(("C12:map-update-ignored", "map built from %s: (%d,%d) was %r, add_type(...%r) again leaves "
                                 "get_type = %r" % (name, s0, i0, t0, t_new, q)))
                     break
+        # two mappers preset from ONE dict of the caller's; clearing one concerns neither the other nor the dict
+        shared = dict(ref)
+        m1 = DeviceInstanceTypeMapper(initial=shared)
+        m2 = DeviceInstanceTypeMapper(initial=shared)
+        m1.clear()
+        if shared != ref:
+            out.append(("C12:map-clear-reaches-callers-dict", "clear() on a mapper built with initial= changed the caller's dict to %r" % (shared,)))
+        for (s, i), t in ref.items():
+            if m2.get_type(short_address=s, instance_number=i) != t:
+                out.append(("C12:map-clear-reaches-other-mapper", "after clear() on a sibling mapper, get_type(%d,%d) = %r expected %r"
+                            % (s, i, m2.get_type(short_address=s, instance_number=i), t)))
+                break
+        # a re-scan: clear(), then some pairs are recorded again (possibly with another type), others are gone
+        from dali import command as _command, frame as _frame
+        before = dict(a.mapping)
         a.clear()
         if a.mapping != {}:
             out.append(("C12:map-clear", "clear() left %r" % (a.mapping,)))
+        now = {}
+        for k, ((s, i), t) in enumerate(sorted(before.items())):
+            if k % 2 == 0:
+                t2 = (t + 1 + k) % 32 if k % 4 == 0 else t
+                a.add_type(short_address=s, instance_number=i, instance_type=t2)
+                now[(s, i)] = t2
+        if dict(a.mapping) != now:
+            out.append(("C12:map-after-clear", "after clear() and %d new entries .mapping is %r, expected %r" % (len(now), dict(a.mapping), now)))
+        for (s, i), t in before.items():
+            q = a.get_type(short_address=s, instance_number=i)
+            if q != now.get((s, i)):
+                out.append(("C12:map-after-clear", "after clear() and a re-scan get_type(%d,%d) = %r, expected %r (before the clear: %r)"
+                            % (s, i, q, now.get((s, i)), t)))
+                break
+            v = (s << 17) | 0x8000 | (i << 10) | 5
+            c = _command.from_frame(_frame.ForwardFrame(24, v), dev_inst_map=a)
+            want = ref_decode(v, now[(s, i)])["cls"] if (s, i) in now else "AmbiguousInstanceType"
+            if type(c).__name__ != want:
+                out.append(("C12:decode-after-map-clear", "after clear() and a re-scan, frame %#08x decodes as %s, expected %s "
+                            "(pair recorded as %r before the clear, %r now)" % (v, type(c).__name__, want, t, now.get((s, i)))))
+                break
     except Exception as e:  # noqa
         if library_frame(e.__traceback__) is None:
             raise
